@@ -588,6 +588,7 @@ func runC14LogPow(ctx *Ctx) {
 			fb, _ := args[1].AsBigFloat().Float64()
 			ref := e.ref(fa, fb)
 			ctx.Add("std."+e.nm, out, wireArgs(args), f64Wire(ref))
+			c14DomCase(ctx, e.nm, args, class, fa, fb)
 			ctx.Tag("class:" + e.nm + ":" + class)
 			ctx.Eval(e.nm+" "+wireArgs(args), true)
 			fail := func(sig, what string) { c14Fail(ctx, e.nm, sig, what, e.goNm, args, out) }
@@ -709,4 +710,5 @@ func runC14(ctx *Ctx) {
 	runC14Strings(ctx)
 	runC14Format(ctx)
 	runC14Json(ctx)
+	runC14D14b(ctx)
 }
